@@ -68,6 +68,7 @@ func init() {
 	R("verifBool", func(m *Machine, a []Value) Value {
 		s := m.ex.fresh(m, "Bool", a[0].(string))
 		m.noteSymbolic(a[0].(string))
+		m.primLog = append(m.primLog, primRec{P: "bool", N: a[0].(string), e: s.E})
 		return s
 	})
 	R("verifInt", func(m *Machine, a []Value) Value {
@@ -79,6 +80,7 @@ func init() {
 		s.Lo, s.Hi = lo, hi
 		m.ex.addPC(m, fmt.Sprintf("(and (<= %s %s) (<= %s %s))", smtInt(lo), s.E, s.E, smtInt(hi)))
 		m.noteSymbolic(a[0].(string))
+		m.primLog = append(m.primLog, primRec{P: "int", N: a[0].(string), e: s.E})
 		return s
 	})
 	R("verifChoice", func(m *Machine, a []Value) Value {
@@ -87,7 +89,9 @@ func init() {
 			m.fail("infeasible", "verifChoice with empty range")
 		}
 		m.ex.note("split", a[0].(string))
-		return int64(m.ex.choose(m, int(n), "verifChoice "+a[0].(string)))
+		c := int64(m.ex.choose(m, int(n), "verifChoice "+a[0].(string)))
+		m.primLog = append(m.primLog, primRec{P: "choice", N: a[0].(string), V: strconv.FormatInt(c, 10)})
+		return c
 	})
 	R("verifNumStr", func(m *Machine, a []Value) Value {
 		lo, hi := a[1].(int64), a[2].(int64)
@@ -95,6 +99,7 @@ func init() {
 		s.Lo, s.Hi = lo, hi
 		m.ex.addPC(m, fmt.Sprintf("(and (<= %s %s) (<= %s %s))", smtInt(lo), s.E, s.E, smtInt(hi)))
 		m.noteSymbolic(a[0].(string))
+		m.primLog = append(m.primLog, primRec{P: "numstr", N: a[0].(string), e: s.E})
 		return &StrNum{s}
 	})
 	R("verifItoa", func(m *Machine, a []Value) Value {
@@ -124,6 +129,7 @@ func init() {
 		s.Lo, s.Hi = 0, atomFreshBase+nfresh
 		m.noteSymbolic(name)
 		m.ex.ex.noteAssumption("string atoms contain no separator characters and are not decimal numerals")
+		m.primLog = append(m.primLog, primRec{P: "atom", N: name, e: s.E})
 		return &StrAtom{Name: name, Code: s}
 	})
 	R("verifAssume", func(m *Machine, a []Value) Value { m.ex.assume(m, a[0]); return nil })
